@@ -18,7 +18,7 @@ import sys
 
 import numpy as np
 
-from harness.common import REPO, zlit
+from harness.common import REPO, zlit, zlist
 from tools import py2coq
 
 RULE = (
@@ -503,6 +503,98 @@ def world_correspondence(ctx):
     ctx.extra["coq_cases_world"] = len(cases)
 
 
+def thread_rows_correspondence(ctx):
+    """coq/C16/Kernel.v: the rows ONE thread of each numba kernel actually writes (the kernel is called directly with
+    thread_rank=r, num_threads=T on buffers preset to a sentinel) against the model's `thread_rows`, which is built from the
+    partition functions regenerated from the source.  Exact, inside Coq, over a grid of (size, target_block_size, T, r)."""
+    import quimb.core as qc
+    import scipy.sparse as sp
+
+    header = ("From Coq Require Import ZArith List Bool.\nFrom QV Require Import Base.PyZ Gen.C16_gen C16.Proofs C16.Kernel.\n"
+              "Import ListNotations.\nOpen Scope Z_scope.\n"
+              "Fixpoint zl_eqb (a b : list Z) : bool := match a, b with [], [] => true | x :: a', y :: b' => Z.eqb x y && zl_eqb a' b' "
+              "| _, _ => false end.\n"
+              "Definition rows_of (size tbs T r : Z) : list Z := match threading_choose_num_blocks size tbs T with "
+              "Some (nb, base, rem) => thread_rows base rem T nb r | None => [] end.\n")
+    rng = np.random.default_rng(ctx.seed + 1617)
+    cases, info = [], {}
+    sizes = [1, 2, 3, 5, 8, 13, 17] if ctx.quick else [1, 2, 3, 4, 5, 7, 8, 9, 13, 16, 17, 31, 33, 40]
+    Ts = [1, 2, 3, 5, 8] if ctx.quick else [1, 2, 3, 4, 5, 8, 11, 16]
+    tbss = [1, -1, 2, -3, 7] if ctx.quick else [1, -1, 2, -2, 3, -3, 5, 7, -7, 16, -16]
+    SENT = -777.0
+
+    def touched(arr):
+        a = np.asarray(arr)
+        a = a.reshape(a.shape[0], -1)
+        return [int(i) for i in np.nonzero((a != SENT).any(axis=1))[0]]
+
+    kernels = {}
+
+    def k_complex(n, kw):
+        out = np.full(n, SENT, dtype=complex)
+        qc._complex_array_numba(np.arange(1.0, n + 1), np.ones(n), out, **kw)
+        return touched(out)
+
+    def k_ldiag(n, kw):
+        out = np.full((n, 2), SENT)
+        qc._l_diag_dot_dense_par(np.arange(1.0, n + 1), np.ones((n, 2)), out, **kw)
+        return touched(out)
+
+    def k_outer(n, kw):
+        out = np.full((n, 3), SENT)
+        qc._outer_par(np.arange(1.0, n + 1), np.ones(3), out, n, 3, **kw)
+        return touched(out)
+
+    def k_subtract(n, kw):
+        X = np.full(n, SENT)
+        qc._subtract_update_1d_numba(X, 1.0, np.ones(n), **kw)
+        return touched(X)
+
+    def k_csr(n, kw):
+        A = sp.identity(n, format="csr")
+        out = np.full(n, SENT)
+        qc._dot_csr_matvec_numba(A.data, A.indptr, A.indices, np.arange(1.0, n + 1), out, **kw)
+        return touched(out)
+
+    def k_kron(n, kw):
+        out = np.full((n * 2, 2), SENT)
+        qc._kron_dense_numba(np.ones((n, 1)), np.ones((2, 2)), out, n, 1, 2, 2, **kw)
+        return touched(out)
+
+    kernels = {"_complex_array_numba": (k_complex, 1), "_l_diag_dot_dense_par": (k_ldiag, 1), "_outer_par": (k_outer, 1),
+               "_subtract_update_1d_numba": (k_subtract, 1), "_dot_csr_matvec_numba": (k_csr, 1), "_kron_dense_numba": (k_kron, 2)}
+    for n, T, tbs in itertools.product(sizes, Ts, tbss):
+        names = list(kernels) if not ctx.quick else list(rng.choice(list(kernels), size=2, replace=False))
+        for name in names:
+            fn, mult = kernels[name]
+            for r in range(T):
+                kw = dict(thread_rank=r, num_threads=T, target_block_size=tbs)
+                try:
+                    rows = fn(n, kw)
+                except Exception as e:
+                    ctx.violation(f"thread_rows:{name}:raised", f"{name}(size={n * mult}, {kw}) raised {type(e).__name__}: {e}",
+                                  {"call": name, "size": n * mult, **kw})
+                    continue
+                cid = len(cases)
+                cases.append((cid, f"zl_eqb (rows_of {zlit(n * mult)} {zlit(tbs)} {zlit(T)} {zlit(r)}) {zlist(rows)}"))
+                info[cid] = {"call": name, "size": n * mult, **kw, "rows_written": rows[:40]}
+                ctx.count(("thread_rows", name, n, T, tbs, r), T > 1)
+                ctx.bump("thread_rows:" + name)
+    failed, errors = ctx.coq_cases("threadrows", header, cases, shard=400)
+    for path, err in errors:
+        ctx.broken_obligation("correspondence:" + path.split("/")[-1], err)
+    seen = set()
+    for c in failed:
+        d = info[c]
+        key = "thread_rows:" + d["call"]
+        if key in seen:
+            continue
+        seen.add(key)
+        ctx.violation(key, f"thread {d['thread_rank']} of {d['num_threads']} of {d['call']} (size={d['size']}, target_block_size="
+                           f"{d['target_block_size']}) writes rows {d['rows_written']}, not the rows of the proved schedule (coq/C16/Kernel.v)", d)
+    ctx.extra["coq_cases_thread_rows"] = len(cases)
+
+
 def run(ctx):
     ctx.extra["rule"] = RULE
     ctx.trusted_base += [
@@ -518,13 +610,15 @@ def run(ctx):
     ]
     ok = ctx.stage(translate)
     ctx.stage(kernel_shape_scan)
-    ctx.check_props(["Gen/C16_gen.vo", "C16/Proofs.vo", "C16/World.vo", "C16/Props.v"])
+    ctx.check_props(["Gen/C16_gen.vo", "C16/Proofs.vo", "C16/World.vo", "C16/Kernel.vo", "C16/Props.v"])
     if ok:
         ctx.stage(correspondence)
     ctx.stage(coverage_oracle)
     ctx.stage(kernel_oracle)
     ctx.stage(builder_oracle)
     ctx.stage(world_correspondence)
+    if ok:
+        ctx.stage(thread_rows_correspondence)
 
 
 def replay(ctx, path):
